@@ -1320,6 +1320,66 @@ class _Tmp:
         return Fn.source_text(self, n)
 
 
+class _InsertFn(Fn):
+    """`Fn` that also reads a field of the element in front of the iterator `where`: `(*std::prev(where))->f` is the input `prev_f`"""
+    def base_name(self, b):
+        txt = re.sub(r"\s+", "", self.source_text(b) or "")
+        if txt in ("(*std::prev(where))", "*std::prev(where)", "std::prev(where)->get()", "(*(where-1))", "*(where-1)", "where[-1]"):
+            return "prev"
+        return Fn.base_name(self, b)
+
+
+class _Sig:
+    def __init__(self, file, sig):
+        self.file, self.sig, self.memcmp_args = file, sig, None
+
+    def signature(self):
+        return self.sig
+
+
+def tr_todos_insert(repo, docs, src):
+    """`ToDos::Insert(todo)`: the index at which `emplace` puts the new element, as a function of the `when` values of the
+    list.  Two ways of searching are understood (anything else is untranslatable):
+      * `where = Find(P{todo->when})` with `Find(pred) = std::find_if(begin(), end(), pred)`: `findIfIdx P_call`
+      * `where = end(); while((where != begin()) && C(*std::prev(where))) --where;`: `backScanIdx C`
+    followed by `emplace(where, std::move(todo))` and nothing else."""
+    fn = find_function(docs, "Insert", "ToDos", ("CXXMethodDecl",))
+    file = _file_of(repo, docs, fn, src)
+    tt = _Tmp(file)
+    ss = [x for x in kids(body_of(fn)) if not _is_assert(x)]
+    txt = [_src_norm(tt, x).rstrip(";") for x in ss]
+    if not ss or txt[-1] not in ("(void)emplace(where,std::move(todo))", "emplace(where,std::move(todo))",
+                                 "(void)insert(where,std::move(todo))", "insert(where,std::move(todo))"):
+        fail("does not end in `emplace(where, std::move(todo))`")
+    sig = "(ws : List Int) (when : Int)"
+    m = re.match(r"^(?:auto|iterator|std::deque<ToDoShared>::iterator)where=Find\((\w+)\{todo->when\}\)$", txt[0]) if len(ss) == 2 else None
+    if m:
+        fdocs = ast_docs(repo, src, "Find")
+        finds = [x for d in fdocs for x in walk(d) if x.get("kind") == "CXXMethodDecl" and x.get("name") == "Find" and body_of(x) is not None]
+        # the template pattern and its instantiations share the source range of the pattern (in this file)
+        bodies = {tuple(_src_norm(tt, x).rstrip(";") for x in kids(body_of(find)) if not _is_assert(x)) for find in finds}
+        if bodies != {("returnstd::find_if(begin(),end(),pred)",)}:
+            fail("`Find` is not `return std::find_if(begin(), end(), pred)`")
+        pdocs = ast_docs(repo, src, m.group(1))
+        t, body = tr_function(repo, pdocs, src, "operator()", m.group(1), [("when", TPNS), ("x", TPNS)], {"todo_when": "x"}, BOOL)
+        body = "\n".join("    " + ln for ln in body.split("\n"))
+        return _Sig(file, sig), "  findIfIdx (fun (x : Int) =>\n%s) ws" % body
+    if len(ss) == 3 and txt[0] in ("autowhere=end()", "iteratorwhere=end()") and ss[1]["kind"] == "WhileStmt":
+        c, b = kids(ss[1])[0], kids(ss[1])[1]
+        if _src_norm(tt, b).strip("{}").rstrip(";") not in ("--where", "where--", "where=std::prev(where)"):
+            fail("the backward search does not step by `--where`")
+        c = _strip(c)
+        if c["kind"] != "BinaryOperator" or c.get("opcode") != "&&" or \
+                _src_norm(tt, kids(c)[0]).strip("()") not in ("where!=begin", "begin()!=where"):
+            fail("the backward search is not guarded by `where != begin()` first")
+        t = _InsertFn(repo, [("when", TPNS), ("x", TPNS)], {"todo_when": "when", "prev_when": "x"})
+        t.bind_params(fn)
+        t.file = file
+        v = t.expr(kids(c)[1])
+        return _Sig(file, sig), "  backScanIdx (fun (x : Int) =>\n    %s) ws ws.length" % as_bool(v)
+    fail("the search for the position is neither `Find(pred)` nor a backward scan from `end()`")
+
+
 def tr_range_guard(repo, docs, src):
     """`CheckServiceNumericOutOfRange`: the condition of its (only) if statement on the parsed number"""
     fn = find_function(docs, "CheckServiceNumericOutOfRange", None, ("FunctionDecl",))
@@ -1369,8 +1429,8 @@ def SPECS():
          lambda r, d, s: tr_decision(r, d, s, "Step", "DriverImpl", [("todos_empty", BOOL), ("timeout", MS)], {}, STEP_TABLE)),
         ("StepTodos_notDue", "Bool", "driver_impl.cpp", "DriverImpl::Step",
          lambda r, d, s: tr_steptodos_due(r, d, s)),
-        ("WhenBefore_call", "Bool", "todo_impl.cpp", "WhenBefore",
-         lambda r, d, s: tr_function(r, d, s, "operator()", "WhenBefore", [("when", TPNS), ("todo_when", TPNS)], {}, BOOL)),
+        ("Todos_Insert_pos", "Nat", "todo_impl.cpp", "ToDos::Insert",
+         lambda r, d, s: tr_todos_insert(r, d, s)),
         ("BufferPool_m_maxCount", "Int", "socket_buffered.cpp", "BufferPool::BufferPool",
          lambda r, d, s: tr_ctor_init(r, d, s, "BufferPool", "m_maxCount", [("maxCount", U64)], {}, U64)),
         ("BufferPool_Get", "GetChoice", "socket_buffered.cpp", "BufferPool::Get",
@@ -1404,7 +1464,7 @@ WHAT = {
     "Step_dispatch": "decision structure of `Driver::DriverImpl::Step(Duration timeout)`",
     "StepTodos_notDue": "`Driver::DriverImpl::StepTodos`: `until = front->when - deadline.now; if(until.count() > 0)` "
                         "(the branch returns `MinDuration(until, deadline.Remaining())`; same in every instantiation)",
-    "WhenBefore_call": "`WhenBefore::operator()(ToDoShared const &todo)`",
+    "Todos_Insert_pos": "`ToDos::Insert(ToDoShared todo)`: index (in the list of `when` values `ws`) at which the new element is emplaced",
     "BufferPool_m_maxCount": "`BufferPool::BufferPool(size_t maxCount, size_t)`, initialiser of `m_maxCount`",
     "BufferPool_Get": "decision structure of `BufferPool::Get`",
     "SockAddrView_lt": "`SockAddrView::operator<`",
@@ -1440,6 +1500,16 @@ TRUSTED part of the translator (tools/cxx2lean.py: `Chrono`, `convert`, `wrap_u`
    sequence exactly, otherwise the function is untranslatable.
 Anything outside the subset yields `-- UNTRANSLATABLE <name>: <reason>` and no definition. -/
 namespace SockModel.Gen
+
+/-- `std::find_if(begin(), end(), p) - begin()` on the list of the elements' `when` values -/
+def findIfIdx (p : Int → Bool) : List Int → Nat
+  | [] => 0
+  | x :: xs => if p x then 0 else findIfIdx p xs + 1
+
+/-- `it = begin() + n; while((it != begin()) && p(*std::prev(it))) --it;` then `it - begin()` -/
+def backScanIdx (p : Int → Bool) (ws : List Int) : Nat → Nat
+  | 0 => 0
+  | n + 1 => if p (ws.getD n 0) then backScanIdx p ws n else n + 1
 
 /-- outcome of `BufferPool::Get`; `reuseIdleTop clear`: `clear()` is called on the reused buffer -/
 inductive GetChoice where
